@@ -94,6 +94,22 @@ def meta_family(tag):
     return scs
 
 
+def dupfilter_family(tag):
+    """several filters of one downstream name the same source node: that node's metadata still arrives once each, in the broker's order."""
+    scs = []
+    for k, (srcs, n) in enumerate([(["n1", "n1"], 900), (["n1", "n2", "n1", "n1"], 900), (["n1", "n1"], 900), (["n1", "n1", "n1"], 900), (["n1", "n1"], 600), (["n2", "n1", "n1"], 900)]):
+        steps = [{"a": "connect", "must": True}, {"a": "openDown", "obj": "D1", "qos": "reliable", "srcs": srcs, "ids": ["A"], "ackFlushMs": 20, "must": True}]
+        for j in range(n):
+            steps.append({"a": "sendDownMeta", "obj": "D1", "src": "n1" if (j % 5 or "n2" not in srcs) else "n2", "tag": 1000 + j})
+        for j in range(n):
+            steps.append({"a": "readMeta", "g": "R2", "obj": "D1", "ctxMs": 1200, "wait": True})
+        steps.append({"a": "readMeta", "g": "R2", "obj": "D1", "ctxMs": 250, "wait": True})
+        steps += [{"a": "closeDown", "g": "C", "obj": "D1", "ctxMs": 3000, "wait": True}, {"a": "quiesce"},
+                  {"a": "closeConn", "g": "main2", "wait": True, "ctxMs": 2000}, {"a": "quiesce", "ms": 50}]
+        scs.append({"id": "%s/dupfilter/%d" % (tag, k), "kind": "iscp", "conn": {}, "steps": steps})
+    return scs
+
+
 def core(tag):
     """fixed scenarios: the same upstream in full form several times before the first ack flush; pre-registered ids; close with pending acks."""
     scs = []
@@ -258,7 +274,7 @@ def run(pid="C04", mon="MonC04"):
         js.append(dict(x, id=x["id"] + "-json", conn=dict(x["conn"], encoding="json")))
     scs += js
     if pid == "C03":
-        scs += meta_family(pid)
+        scs += meta_family(pid) + dupfilter_family(pid)
         # unreliable downstream over a transport with a separate unreliable path (chunks arrive on the datagram-like pipe)
         scs += forms_family(pid, 3, "up", qos="unreliable", conn={"unreliable": True}, name="forms-up3-unreliable-path")
         scs += forms_family(pid, 3, "up", qos="partial", name="forms-up3-partial")
